@@ -118,7 +118,7 @@ def units(rng, tier):
 def judge_requests(u, impl, model):
     p = u["params"]
     a = p["algo"]
-    if u.get("family") == "deep-recursion" and impl.get("exc") == "RecursionError":
+    if impl.get("exc") == "RecursionError" and len(p["vals"]) >= 900:      # the deep-recursion family (also when replayed from the corpus)
         return []
     if "exc" in impl:
         return [("py", None, f"{a}(numbins={p['k']}, items={UN.short(p['vals'],150)}, format {p['fmt']}, {p.get('objective','')}{p.get('flags','')}) did not complete: {impl['exc']}")]
